@@ -65,8 +65,9 @@ def handle (op stream : String) (ins outs : List String) : List Out :=
   | "clip" =>
     let l := lineX iv 0; let b := lineX iv 4
     let lf := lineF iv 0; let bf := lineF iv 4
-    let m := Model.Clip.lineClipToBounds l b
-    let mf := Model.Clip.lineClipToBounds lf bf
+    -- the GENERATED function (C04Clip.generated_eq_model proves it equal to the hand model the theorems were first written for)
+    let m := Gen.line_clip_to_bounds l b
+    let mf := Gen.line_clip_to_bounds lf bf
     match m, flag with
     | none, 0 => [{ field := "clip.none", cmp := .same 0, fbit := some mf.isNone }]
     | some s, 1 =>
